@@ -16,3 +16,14 @@ for _f in sorted(glob.glob(os.path.join(_here, "props.d", "C*.py"))):
     _ns = {"gt": gt, "__file__": _f}
     exec(compile(open(_f).read(), _f, "exec"), _ns)
     PROPS[os.path.basename(_f)[:-3]] = _ns["PROP"]
+
+# quick-tier multipliers (see quick_scale.json)
+import json as _json
+_sp = os.path.join(_here, "quick_scale.json")
+if os.path.exists(_sp):
+    _scale = _json.load(open(_sp))
+    for _id, _p in PROPS.items():
+        _k = _scale.get(_id, 1)
+        for _e in _p["engines"]:
+            if _e.get("kind", "gotest") == "gotest" and _e.get("rapid", True) and "checks" in _e.get("quick", {}):
+                _e["quick"] = dict(_e["quick"], checks=int(_e["quick"]["checks"] * _k))
